@@ -86,7 +86,31 @@ def _plain_and_external(args):
         res["subst"] = "validation: %s" % str(e)[:100]
     except Exception as e:
         res["subst"] = "internal:%s %s" % (type(e).__name__, str(e)[:100])
-    # shape of the kept calls
+    # the option belongs to the call: the same module (and a copy of it) unrolled afterwards without it gives the
+    # plain unrolling, and a module unrolled plainly first gives the kept program when asked with it afterwards
+    if "kept_text" in res and not isinstance(res.get("plain"), str):
+        try:
+            m0 = pyqasm.loads(src)
+            m0.unroll()
+            plain_text = pyqasm.dumps(m0)
+            m1 = pyqasm.loads(src)
+            m1.unroll(external_gates=list(E))
+            c1 = m1.copy()
+            m1.unroll()
+            c1.unroll()
+            m2 = pyqasm.loads(src)
+            m2.unroll()
+            m2.unroll(external_gates=list(E))
+            m3 = pyqasm.loads(src)
+            m3.unroll(external_gates=list(E))
+            m3.unroll(external_gates=[])
+            seq = {"unroll(external_gates=E); unroll()": pyqasm.dumps(m1) == plain_text,
+                   "unroll(external_gates=E); copy().unroll()": pyqasm.dumps(c1) == plain_text,
+                   "unroll(); unroll(external_gates=E)": pyqasm.dumps(m2) == res["kept_text"],
+                   "unroll(external_gates=E); unroll(external_gates=[])": pyqasm.dumps(m3) == plain_text}
+            res["sequence_failures"] = [k for k, ok in seq.items() if not ok]
+        except Exception as e:
+            res["sequence_failures"] = ["%s: %s" % (type(e).__name__, str(e)[:100])]
     return res
 
 
@@ -99,6 +123,10 @@ def direct(run, chk):
         res = pool.map(_plain_and_external, jobs, chunksize=10)
     nbad, checked = 0, 0
     for (src, E), r in zip(jobs, res):
+        if r.get("sequence_failures") and nbad < 4:
+            nbad += 1
+            chk.violation("sequence_%d" % nbad, {"kind": "script", "source": src, "external_gates": E, "failing_sequences": r["sequence_failures"],
+                                                 "what": "external_gates given to one unroll() call influences (or is ignored by) another call on the same module or its copy"})
         if isinstance(r.get("plain"), str):
             # plain unroll rejects: the kept version must reject too (still validated)
             if not isinstance(r.get("subst"), str) and nbad < 4:
